@@ -86,6 +86,8 @@ pub struct Violation {
     pub on_stack: bool,
     /// a fault fired in the step / the step was a cancellation
     pub faulted: u8,
+    /// a panic was observed or expected in the step's events
+    pub panic_involved: bool,
     pub detail: String,
 }
 impl Violation {
@@ -240,6 +242,7 @@ fn touched_slots(p: &Pred) -> [bool; 3] {
         Op::Lazy => true,
         _ => false,
     };
+    let uses_other = uses_other && r.op != Op::TypeProbe;
     if uses_other && r.other < 3 {
         t[r.other] = true;
     }
@@ -256,7 +259,7 @@ impl<'a> Ctx<'a> {
             }
             None => (Op::Nop, 0, self.info.be[0].on_stack() || self.info.be[1].on_stack()),
         };
-        Violation { class, step, op, via, on_stack, faulted, detail }
+        Violation { class, step, op, via, on_stack, faulted, panic_involved: false, detail }
     }
 
     fn take_snaps(&mut self) {
@@ -382,13 +385,9 @@ impl<'a> Ctx<'a> {
         }
         if obs != &p.ev[..] {
             let diag = self.world.take_diag();
-            return Err(self.viol(
-                Class::EvMismatch,
-                step,
-                Some(p),
-                0,
-                format!("observed {:?}, model expects {:?} {}", short_ev(obs), short_ev(&p.ev), diag),
-            ));
+            let mut v = self.viol(Class::EvMismatch, step, Some(p), 0, format!("observed {:?}, model expects {:?} {}", short_ev(obs), short_ev(&p.ev), diag));
+            v.panic_involved = obs.iter().chain(p.ev.iter()).any(|e| *e == Ev::Panic);
+            return Err(v);
         }
         self.check_common(step, Some(p), 0)?;
         for s in 0..3 {
@@ -806,7 +805,8 @@ fn run_steps(cx: &mut Ctx, scn: &Scenario) -> Result<(), Violation> {
         // probes need the pre-state lengths; cheap copy of lengths only
         let pre_lens = [cx.model.len(0), cx.model.len(1), cx.model.len(2)];
         let pre_fixed = [cx.model.fixed_cap(0), cx.model.fixed_cap(1), cx.model.fixed_cap(2)];
-        let mut p = cx.model.apply(st, caps);
+        let lie = scn.faults.iter().find(|f| f.step as usize == si && f.kind == F_LEN_LIE).map(|f| f.delta).unwrap_or(0);
+        let mut p = cx.model.apply_with(st, caps, lie);
         // planned faults for this step
         let mut drop_k = 0u64;
         let mut clone_k = 0u64;
